@@ -118,6 +118,8 @@ def ite(c, x, y):
 
 # ---------------------------------------------------------------------- sequences / dicts
 def py_len(I, v):
+    if isinstance(v, DictV) and v.sym_items is not None:
+        return len(v.sym_items) + len(v.entries)
     if isinstance(v, (str, bytes, tuple, frozenset, dict)):
         return len(v)
     if isinstance(v, (SStr, SBytes, SStrList)):
@@ -196,6 +198,8 @@ def key_concrete(k):
 
 def dict_items(I, d):
     """[(key, value)] of entries that are definitely present; forks on uncertain presence."""
+    if isinstance(d, DictV) and d.sym_items is not None:
+        return [(k, v) for k, v in d.sym_items] + [(k, v) for k, (v, p) in d.entries.items() if p is True]
     if isinstance(d, DictV):
         if d.abstract is not None:
             raise OutOfReach("iteration over an abstract map needs a loop contract")
@@ -228,7 +232,16 @@ def dict_set(I, d, k, v):
     if d.abstract is not None:
         return d.abstract.set(I, k, v)
     if not key_concrete(k):
-        raise OutOfReach("dict store with symbolic key")
+        if d.entries and d.sym_items is None:
+            raise OutOfReach("dict store with symbolic key into a dict with concrete keys")
+        if d.sym_items is None:
+            d.sym_items = []
+        for it in d.sym_items:
+            if I.ctx.branch(I.eq(it[0], k)):
+                it[1] = v              # existing key: value replaced, position kept
+                return
+        d.sym_items.append([k, v])
+        return
     if k in d.entries:
         d.entries[k] = [v, True]       # position of an existing key is kept (Python semantics)
     else:
